@@ -955,16 +955,54 @@ func executeViaLoader(src string, bits int) (res run) {
 	return
 }
 
+// the resolver's binding decision for every identifier that has one (syntax.Ident.Binding), under the two
+// options that influence it; scope codes: 0 undefined, 1 local or cell, 2 free, 3 global, 4 predeclared, 5 universal
+type bindset struct {
+	GR    bool     `json:"gr"`
+	LBG   bool     `json:"lbg"`
+	Binds [][2]int `json:"binds"`
+}
+
+func dumpBindings(src string) []bindset {
+	var out []bindset
+	for _, gr := range []bool{false, true} {
+		for _, lbg := range []bool{false, true} {
+			opts := &syntax.FileOptions{Set: true, While: true, TopLevelControl: true, GlobalReassign: gr, LoadBindsGlobally: lbg}
+			f, err := opts.Parse("p.star", src, 0)
+			if err != nil {
+				continue
+			}
+			func() {
+				defer func() { recover() }()
+				resolve.File(f, func(name string) bool { return name == "log" }, starlark.Universe.Has)
+			}()
+			bs := bindset{GR: gr, LBG: lbg, Binds: [][2]int{}}
+			syntax.Walk(f, func(n syntax.Node) bool {
+				if id, ok := n.(*syntax.Ident); ok && id != nil && id.Binding != nil {
+					if b, ok := id.Binding.(*resolve.Binding); ok && b != nil {
+						code := map[resolve.Scope]int{resolve.Undefined: 0, resolve.Local: 1, resolve.Cell: 1, resolve.Free: 2, resolve.Global: 3, resolve.Predeclared: 4, resolve.Universal: 5}[b.Scope]
+						bs.Binds = append(bs.Binds, [2]int{posID(id.NamePos), code})
+					}
+				}
+				return true
+			})
+			out = append(out, bs)
+		}
+	}
+	return out
+}
+
 type progOut struct {
-	Kind     string   `json:"kind"` // "prog"
-	Plant    string   `json:"plant"`
-	Where    string   `json:"where"`
-	Marker   int      `json:"marker"`
-	Src      string   `json:"src"`
-	Tree     any      `json:"tree"`
-	Runs     []run    `json:"runs"`
-	Problems []string `json:"problems"` // disagreements with the expectation from the language rules
-	Coq      bool     `json:"coq"`
+	Bindsets []bindset `json:"bindsets,omitempty"`
+	Kind     string    `json:"kind"` // "prog"
+	Plant    string    `json:"plant"`
+	Where    string    `json:"where"`
+	Marker   int       `json:"marker"`
+	Src      string    `json:"src"`
+	Tree     any       `json:"tree"`
+	Runs     []run     `json:"runs"`
+	Problems []string  `json:"problems"` // disagreements with the expectation from the language rules
+	Coq      bool      `json:"coq"`
 }
 
 func resolveMain(argv []string) {
@@ -1174,11 +1212,17 @@ func resolveMain(argv []string) {
 		if len(out.Problems) > 0 {
 			problems++
 		}
+		if *ncoq > 0 && i%((*nprog+*ncoq-1) / *ncoq) == 1 && i/((*nprog+*ncoq-1) / *ncoq) < *ncoq {
+			out.Bindsets = dumpBindings(pr.Src)
+		}
 		out.Coq = *ncoq > 0 && i%((*nprog+*ncoq-1) / *ncoq) == 1 && i/((*nprog+*ncoq-1) / *ncoq) < *ncoq
 		if out.Coq || len(out.Problems) > 0 {
 			hx.Emit(out)
 		}
 	}
+	sr, sp := runShadow(*nvec, func(o *progOut) { hx.Emit(o) })
+	total += sr
+	problems += sp
 	hx.Emit(map[string]any{"kind": "rsummary", "programs": *nprog, "runs": total, "problem_programs": problems, "dist": dist, "vectors": *nvec, "plants": len(pl), "context_pairs": len(cps) * len(css)})
 	hx.Flush()
 }
